@@ -14,8 +14,7 @@ def run_oracle(chk, rng, ncases):
             continue
         for x in r['results']:
             if 'error' in x:
-                chk.violation(dict(stage='c07-oracle', exception=x['error']['exception'], raised_in=x['error']['raised_in']),
-                              'real code raised %s: %s' % (x['error']['exception'], x['error']['message']), x.get('spec'))
+                report_error(chk, 'c07-oracle', x)
                 continue
             n += 1
             key = json.dumps(x['spec'], sort_keys=True)
@@ -42,8 +41,7 @@ def run(tier, seed):
         nontriv = len(o['sources']) > 1 or any(float.fromhex(s['v'][1]) != 0 for s in o['sources'])
         chk.add_case(key, nontriv, sample=dict(family=r['spec']['family'], n=o['n'], sources=r['spec']['sources']) if nontriv else None)
     for r in errs:
-        chk.violation(dict(stage='lin', exception=r['error']['exception'], raised_in=r['error']['raised_in']),
-                      'real code raised %s: %s' % (r['error']['exception'], r['error']['message']), r.get('spec'))
+        report_error(chk, 'lin', r)
     # the search oracle runs at reduced size in quick mode, at full size when a tie broke or in thorough mode
     nor = 24 if (tier == 'quick' and not chk.broken) else (60 if tier == 'quick' else 300)
     run_oracle(chk, rng, nor)
